@@ -4,7 +4,7 @@
    N, positive, Z, nat stay the extracted inductive datatypes. *)
 From Coq Require Extraction.
 From Coq Require Import ExtrOcamlBasic.
-From PL Require Import Model.Base Model.Order Model.Queue Model.Level Model.Conc Model.ConcQ Spec.MatchSpec Spec.Iface Spec.Priority Spec.QueueSpec.
+From PL Require Import Model.Base Model.Order Model.Queue Model.Level Model.Conc Model.ConcQ Spec.MatchSpec Spec.Iface Spec.Priority Spec.QueueSpec Spec.Judges.
 
 Extraction Language OCaml.
 
@@ -19,4 +19,5 @@ Extraction "../modelrun/model.ml"
   shared_of_level level_of_shared thread_init accept exec cstep quiescent thread_finished ev_eqb
   step_f step_q busy_after abs
   inew iadd imatch iupdate live_tickets
-  qshared_of_queue queue_of_qshared qthread_init qaccept qcstep qquiescent.
+  qshared_of_queue queue_of_qshared qthread_init qaccept qcstep qquiescent
+  agg_b listing_ok_b accounting_b.
